@@ -46,7 +46,9 @@ void h_linear_weights(void)
   IN_VEC_T in_c;
   for (unsigned k = 0; k < DIMS_IN; k++) {
     unsigned in_cell = nondet_unsigned(), in_quarter = nondet_unsigned();
-    __CPROVER_assume(in_cell <= 1000000 && in_quarter < 4);
+    /* cell + quarter must be exact in the coordinate type: 24-bit significand for float, and for double the cell
+     * index deliberately exceeds what float can represent together with the fraction */
+    __CPROVER_assume(in_cell <= (sizeof(IN_SCALAR_T) == 4 ? 2097151u : 8388606u) && in_quarter < 4);
     in_c.m_data[k] = (IN_SCALAR_T)in_cell + (IN_SCALAR_T)in_quarter * (IN_SCALAR_T)0.25;
   }
   setup_common(in_c);
